@@ -18,7 +18,7 @@ from fractions import Fraction as F
 from ..lib import coqlit as L
 from ..lib import env
 
-IMPORTS = ("From LV Require Import Common.Cases Wordlist.SerializeStr Wordlist.SerializeNum Wordlist.Serialize "
+IMPORTS = ("From LV Require Import Common.Cases Wordlist.SerializeStr Wordlist.SerializeNum Wordlist.Serialize Wordlist.SerializeMsa "
            "Wordlist.SerializeExec.\nLocal Open Scope Z_scope.")
 
 BITS = {0: "correspondence: model text / model parse / model pairs differ from the implementation",
@@ -28,7 +28,9 @@ BITS = {0: "correspondence: model text / model parse / model pairs differ from t
            "result of the same deterministic analysis differ between the saved and the loaded object",
         4: "dst: a distance read back is not the four-decimal rounding of the value saved",
         5: "scorer: a score read back is not the two-decimal rounding of the value saved",
-        6: "re-analysis: align() on an already aligned Alignments object gives another result after save/load"}
+        6: "re-analysis: align() on an already aligned Alignments object gives another result after save/load",
+        7: "msa blocks: a cognate set read back from its <msa> block differs from the one saved (ids, taxa, rows, "
+           "plain segments, local / swaps annotations)"}
 
 
 def quiet():
@@ -461,6 +463,26 @@ def _msa_state(obj, annotations=True):
     return out
 
 
+def _msa_struct(obj):
+    """msa['cogid'] of an Alignments object in dictionary order, field by field."""
+    out = []
+    for key, msa in obj.msa["cogid"].items():
+        if not is_int(key):
+            raise Unsupported("msa key %r" % (key,))
+        st = msa.get("stamp", "") or ""
+        stl = st.split("\n")
+        if stl and stl[-1] == "":
+            stl.pop()
+        out.append({"key": int(key), "ids": [int(i) for i in msa["ID"]], "taxa": [str(t) for t in msa["taxa"]],
+                    "alm": [[str(x) for x in r] for r in msa["alignment"]],
+                    "seqs": [[str(x) for x in r] for r in msa["seqs"]],
+                    "local": [int(i) for i in (msa.get("local") or [])],
+                    "swaps": [[int(x) for x in sw] for sw in (msa.get("swaps") or [])],
+                    "cons": [str(x) for x in msa["consensus"]] if "consensus" in msa else None,
+                    "stamp": stl})
+    return out
+
+
 def ser_run(case):
     """history = number of save -> load -> analyse rounds.  Returns one step record per save/load."""
     import copy
@@ -476,6 +498,8 @@ def ser_run(case):
         if lex:
             step["taxa"], step["concepts"] = list(obj.cols), sorted(obj.rows)   # plain str order, as lexstat.py:449 sorts
             step["pairs_before"] = _pairs(obj)
+        if case["type"] == "alignments":
+            step["msa_saved"] = _msa_struct(obj)
         obj.output("tsv", filename=path, prettify=case["prettify"], ignore=case.get("ignore", "all"))
         step["text"] = file_lines(path + ".tsv")
         try:
@@ -490,6 +514,8 @@ def ser_run(case):
             if lex:
                 step["pairs_after"] = _pairs(loaded)
             if case["type"] == "alignments":
+                step["taxa"] = [str(t) for t in obj.cols]
+                step["msa_loaded"] = _msa_struct(loaded)
                 # the alignments per cognate set are derived state: they must survive as they are
                 ann = case.get("ignore", "all") == []
                 step["analysis"] = [_msa_state(obj, ann), _msa_state(loaded, ann)]
@@ -525,6 +551,38 @@ def pre_lines(text, pretty):
     return pre
 
 
+def NL(l):
+    return "[" + ";".join("%d%%nat" % i for i in l) + "]"
+
+
+def SLL(rows):
+    return "[" + "; ".join(SL(r) for r in rows) + "]"
+
+
+def _swaps_lit(sw):
+    return "[" + ";".join("(%d%%nat,%d%%nat,%d%%nat)" % tuple(x) for x in sw) + "]"
+
+
+def _cons_lit(c):
+    return "None" if c is None else "(Some %s)" % SL(c)
+
+
+def msa_lit(m):
+    return "(mk_msa [%s] %s %s %s %s %s)" % (";".join(zs(i) for i in m["ids"]), SL(m["taxa"]), SLL(m["alm"]), NL(m["local"]),
+                                            _swaps_lit(m["swaps"]), _cons_lit(m["cons"]))
+
+
+def msa_read_lit(m):
+    return "(mk_msa_read [%s] %s %s %s %s %s %s)" % (";".join(zs(i) for i in m["ids"]), SL(m["taxa"]), SLL(m["alm"]),
+                                                    SLL(m["seqs"]), NL(m["local"]), _swaps_lit(m["swaps"]),
+                                                    _cons_lit(m["cons"]))
+
+
+def state_lit(ms, sort=False):
+    ms = sorted(ms, key=lambda m: m["key"]) if sort else ms
+    return "[" + "; ".join("(%s, %s)" % (zs(m["key"]), msa_read_lit(m)) for m in ms) + "]"
+
+
 def _pairs_lit(p):
     return "[" + "; ".join("(%s, %s, [%s])" % (S(a), S(b), ";".join("(%s,%s)" % (zs(x), zs(y)) for x, y in v))
                            for a, b, v in p) + "]"
@@ -548,11 +606,17 @@ def ser_render_step(case, step, which="analysis"):
             re_an = lit
         else:
             an = lit
+    msa = "None"
+    if "msa_saved" in step and "msa_loaded" in step and "cogid" in step["cols"]:
+        ci = step["cols"].index("cogid")
+        cogids = sorted({c[ci][1] for _, c in step["rows"] if c[ci][0] == "int"})
+        msa = "(Some (%s, [%s], %s, %s))" % (SL(step["taxa"]), ";".join(zs(k) for k in cogids),
+                                            state_lit(step["msa_saved"], True), state_lit(step["msa_loaded"], True))
     return L.record("ser_case", [
         L.b(pretty), SL(step["cols"]), rows_lit(step["rows"]), SL(step["stamp"]), SL(pre_lines(step["text"], pretty)),
         SL(step["text"]),
         wl_lit(step["load"]), L.b(is_nfc(step["cols"], step["rows"])), lexp,
-        L.b(case["type"] == "lexstat"), an, re_an])
+        L.b(case["type"] == "lexstat"), an, msa, re_an])
 
 
 class _Ser:
@@ -625,6 +689,46 @@ def expand(cases, on_error=None):
             if "analysis2" in st:
                 out.append({"case": case, "index": i, "step": st, "which": "analysis2"})
     return out
+
+
+class _Msa:
+    """<msa> blocks of one save/load step of an Alignments object written with ignore=[]."""
+    IMPORTS = IMPORTS
+    BITS = BITS
+    run_impl = staticmethod(lambda case: case["step"])
+
+    @staticmethod
+    def render(case, res):
+        pretty = bool(case["case"]["prettify"])
+        saved = "[" + "; ".join("(%s, %s, %s)" % (zs(m["key"]), SL(m["stamp"]), msa_lit(m)) for m in res["msa_saved"]) + "]"
+        seqs = "[" + "; ".join(SLL(m["seqs"]) for m in res["msa_saved"]) + "]"
+        load = "Err" if "msa_loaded" not in res else "(Ok %s)" % state_lit(res["msa_loaded"])
+        return L.record("msa_case", [S("cogid"), saved, seqs, SL(pre_lines(res["text"], pretty)), load])
+
+    @staticmethod
+    def nontrivial(case, res):
+        return any(any("-" in r for r in m["alm"]) for m in res["msa_saved"])
+
+    @staticmethod
+    def jsonable(case, res=None):
+        return _Ser.jsonable(case, res)
+
+    @staticmethod
+    def classify(case, res):
+        out = ["blocks=%d" % min(len(res["msa_saved"]), 5), "step=%d" % case["index"]]
+        if any(m["swaps"] for m in res["msa_saved"]):
+            out.append("with_swaps")
+        if any(m["local"] for m in res["msa_saved"]):
+            out.append("with_local")
+        return out
+
+
+MSA = _Msa
+
+
+def msa_steps(steps):
+    return [s for s in steps if s["case"]["type"] == "alignments" and s["case"].get("ignore") == []
+            and "msa_saved" in s["step"] and s.get("which", "analysis") == "analysis"]
 
 
 # ----------------------------------------------------------------------------------------------
